@@ -302,6 +302,18 @@ func TestPropWorkPanics(t *testing.T) {
 				stats.Class("item_panics_again_in_its_next_run")
 			}
 		}
+		if kind == "service" && mode == "finish" && rapid.IntRange(0, 2).Draw(t, "from_prep") == 0 {
+			// the service worker is started by the module's prep routine and outlives the start (its first run takes
+			// 30 ms): it panics while the module is online and is restarted like any other
+			last := &sc.Modules[len(sc.Modules)-1]
+			for i := range last.Work {
+				if last.Work[i].ID == 100 {
+					last.Work[i].HoldUS = 30000
+				}
+			}
+			last.Prep.Launch = append(last.Prep.Launch, 100)
+			stats.Class("panicking_service_worker_started_by_the_prep_routine")
+		}
 		sc.Delays = modsim.GenDelays(t, sc.Modules, 2)
 		if rapid.IntRange(0, 4).Draw(t, "noreports") == 0 {
 			// nobody listens for reports (no channel, stderr off): everything else stays as it is
